@@ -534,7 +534,8 @@ func checkEnumScan(c *core.Ctx, prog *core.Prog, r *core.Rule) {
 				if types.ExprString(inner.X) != types.ExprString(outer.X) {
 					return true
 				}
-				ast.Inspect(inner.Body, func(k ast.Node) bool {
+				var negGuard *ast.IfStmt
+				cb := func(k ast.Node) bool {
 					ifs, ok := k.(*ast.IfStmt)
 					if !ok {
 						return true
@@ -575,7 +576,7 @@ func checkEnumScan(c *core.Ctx, prog *core.Prog, r *core.Rule) {
 					// the skip condition may only exclude i == j (or one triangle)
 					skipOK := true
 					for _, st := range inner.Body.List {
-						if is, ok := st.(*ast.IfStmt); ok && is != ifs && containsContinue(is.Body) {
+						if is, ok := st.(*ast.IfStmt); ok && is != ifs && is != negGuard && containsContinue(is.Body) {
 							cond := types.ExprString(is.Cond)
 							ok1 := false
 							ok2 := identName(outer.Key) != "" && identName(inner.Key) != ""
@@ -718,7 +719,43 @@ func checkEnumScan(c *core.Ctx, prog *core.Prog, r *core.Rule) {
 						r.Fail(fname+":enum-scan:reject", pos, "a true json.Equal result does not lead to an error return: duplicate enum members are accepted")
 					}
 					return true
-				})
+				}
+				ast.Inspect(inner.Body, cb)
+				// the same scan written as `same, _ := json.Equal(a, b)` followed by `if same { return err }` or by
+				// `if !same { continue }` and the error return: rewritten into the if-with-init form and analysed alike
+				for si, st := range inner.Body.List {
+					as, ok := st.(*ast.AssignStmt)
+					if !ok || len(as.Lhs) < 1 || len(as.Rhs) != 1 || si+1 >= len(inner.Body.List) {
+						continue
+					}
+					ce, ok := as.Rhs[0].(*ast.CallExpr)
+					if !ok {
+						continue
+					}
+					se, ok := ce.Fun.(*ast.SelectorExpr)
+					if !ok || se.Sel.Name != "Equal" {
+						continue
+					}
+					if fn, ok := pkg.TypesInfo.Uses[se.Sel].(*types.Func); !ok || fn.Pkg() == nil || fn.Pkg().Path() != pkgJSON {
+						continue
+					}
+					flag := identName(as.Lhs[0])
+					nx, ok := inner.Body.List[si+1].(*ast.IfStmt)
+					if !ok || flag == "" || nx.Init != nil {
+						continue
+					}
+					switch types.ExprString(nx.Cond) {
+					case flag:
+						cb(&ast.IfStmt{If: nx.If, Init: as, Cond: nx.Cond, Body: nx.Body})
+					case "!" + flag:
+						if containsContinue(nx.Body) && len(nx.Body.List) == 1 {
+							negGuard = nx
+							rest := &ast.BlockStmt{Lbrace: nx.End(), List: inner.Body.List[si+2:], Rbrace: inner.Body.Rbrace}
+							cb(&ast.IfStmt{If: nx.If, Init: as, Cond: &ast.Ident{NamePos: nx.Cond.Pos(), Name: flag}, Body: rest})
+							negGuard = nil
+						}
+					}
+				}
 				return true
 			})
 			return true
